@@ -1,6 +1,6 @@
 (* C01TableProofs.v — every entry of leaf_table is lossless and yields a leaf whose name is the table key. *)
 From V.lib Require Import Base.
-From V.c01 Require Import C01Codec C01Model C01LeafProofs C01Leaf2Proofs C01Leaf3Proofs C01Leaf4Proofs C01Leaf5Proofs C01LocalProofs C01EsdsProofs.
+From V.c01 Require Import C01Codec C01Model C01LeafProofs C01Leaf2Proofs C01Leaf3Proofs C01Leaf4Proofs C01Leaf5Proofs C01LocalProofs C01EsdsProofs C01SgpdProofs.
 
 Definition entry_ok (e : list N * (hdr -> parser (leaf * rsvT))) : Prop :=
   leaf_lossless (snd e) /\
@@ -67,7 +67,7 @@ Proof.
               | exact lossless_url | exact lossless_avcC | exact lossless_btrt | exact lossless_pasp | exact lossless_colr
               | exact lossless_clap | exact lossless_schm | exact lossless_cslg
               | exact lossless_senc | exact lossless_emsg | exact lossless_elng | exact lossless_kind
-              | exact lossless_hvcC | exact lossless_subs | exact lossless_esds | exact lossless_uuid ];
+              | exact lossless_hvcC | exact lossless_subs | exact lossless_esds | exact lossless_uuid | exact lossless_sgpd ];
     intros h r l rsv r' Hn H;
     try (apply (avcC_name _ _ _ _ _ H));
     try (apply (hvcC_name _ _ _ _ _ H));
@@ -78,7 +78,7 @@ Proof.
     unfold dec_ftyp, dec_free, dec_mfhd, dec_tfhd, dec_tfdt, dec_trun, dec_mvhd, dec_tkhd, dec_sidx, dec_trex, dec_mdhd,
       dec_hdlr, dec_stts, dec_stsc, dec_stsz, dec_tab, dec_sdtp, dec_ctts, dec_elst, dec_saiz, dec_saio, dec_sbgp, dec_prft,
       dec_tenc, dec_frma, dec_vmhd, dec_smhd, dec_fullonly, dec_mfro, dec_mehd, dec_tfra, dec_pssh,
-      dec_url, dec_btrt, dec_pasp, dec_colr, dec_clap, dec_schm, dec_cslg, dec_senc, dec_emsg, dec_kind, dec_subs in H;
+      dec_url, dec_btrt, dec_pasp, dec_colr, dec_clap, dec_schm, dec_cslg, dec_senc, dec_emsg, dec_kind, dec_subs, dec_sgpd in H;
     name_of H.
 Qed.
 
